@@ -319,11 +319,7 @@ func run(c Case) vt.Verdict {
 		return vt.Fail(k("no-correctable"), "the stub returned no correctable object")
 	}
 	fail := func(key, f string, a ...any) vt.Verdict {
-		dbg := ""
-		for _, n := range client.Configs[0].Nodes() {
-			dbg += fmt.Sprintf(" [DBG node %d lasterr=%v]", n.ID(), n.LastErr())
-		}
-		return vt.Verdict{OK: false, Key: key, Msg: fmt.Sprintf(f, a...) + dbg, History: cl.Log.Snapshot()}
+		return vt.Verdict{OK: false, Key: key, Msg: fmt.Sprintf(f, a...), History: cl.Log.Snapshot()}
 	}
 	var m model
 	m.level = gorums.LevelNotSet
